@@ -110,6 +110,7 @@ type Exec struct {
 	splitObligations []splitOb
 	digitAtoms       []*smt.Term
 	jsonEqDepth      int
+	anyReleased      bool // some object was handed back to a sync.Pool on this path
 	bech32Atoms      []*smt.Term
 	viewAtoms        []viewAtom
 	keyPairs         []*smt.Term
@@ -283,6 +284,7 @@ func (e *Exec) runOnePath(fn *ssa.Function, prefix []int) {
 	}
 	e.catchDepth = 0
 	e.curDeferFrame, e.joins, e.splitObligations, e.digitAtoms, e.bech32Atoms, e.viewAtoms, e.keyPairs = nil, nil, nil, nil, nil, nil, nil
+	e.anyReleased, e.jsonEqDepth = false, 0
 	e.initMode = false
 	e.callStack = nil
 	reason := "returned"
